@@ -157,6 +157,8 @@ type TxGen struct {
 	Allow map[string]bool
 	// vaultHolders: per vault, the addresses holding an enabled withdraw policy.
 	vaultHolders map[staking.Address][]staking.Address
+	// propNote: what the last generated parameter-change proposal carries (for labels)
+	propNote string
 	// Profile weights
 	Profile string
 	// foreignListed: node IDs that an entity transaction generated for THIS block adds to another entity's list.
@@ -491,7 +493,11 @@ func (g *TxGen) Gen(t *rapid.T) *TxDesc {
 		}
 		method, body = staking.MethodAmendCommissionSchedule, &staking.AmendCommissionSchedule{Amendment: am}
 	case "proposal":
-		method, body = governance.MethodSubmitProposal, g.proposal(t)
+		pc := g.proposal(t)
+		method, body = governance.MethodSubmitProposal, pc
+		if pc.ChangeParameters != nil {
+			note = "change-parameters:" + pc.ChangeParameters.Module + g.propNote
+		}
 	case "vote":
 		props, _ := g.V.Gov.ActiveProposals(g.V.ctx)
 		id := uint64(rapid.IntRange(0, 4).Draw(t, "voteID"))
@@ -749,6 +755,31 @@ func (g *TxGen) proposal(t *rapid.T) *governance.ProposalContent {
 		if rapid.Bool().Draw(t, "alsoDeleg") {
 			v2 := q(uint64(rapid.IntRange(0, 20).Draw(t, "newMinDeleg")))
 			ch.MinDelegationAmount = &v2
+		}
+		// further staking parameters that later transactions of the same block would notice (transfers disabled, a
+		// minimum transact balance, delegation disabled, an allowance limit) ...
+		g.propNote = ""
+		if rapid.Bool().Draw(t, "propWide") {
+			g.propNote += "+block-visible"
+			yes := true
+			switch rapid.IntRange(0, 3).Draw(t, "propWideKind") {
+			case 0:
+				ch.DisableTransfers = &yes
+			case 1:
+				v3 := q(uint64(rapid.SampledFrom([]int{1, 1000, 1 << 40}).Draw(t, "newMinTransact")))
+				ch.MinTransactBalance = &v3
+			case 2:
+				ch.DisableDelegation = &yes
+			default:
+				var n uint32
+				ch.MaxAllowances = &n
+			}
+		}
+		// ... and change sets that are well-formed but give an INVALID parameter set (the proposal must be refused)
+		if rapid.IntRange(0, 2).Draw(t, "propInvalid") == 0 {
+			g.propNote += "+invalid-result"
+			v4 := q(uint64(100_001 + rapid.IntRange(0, 5).Draw(t, "overUnity")))
+			ch.MinCommissionRate = &v4
 		}
 		pc.ChangeParameters = &governance.ChangeParametersProposal{Module: staking.ModuleName, Changes: cbor.Marshal(ch)}
 	case 3:
